@@ -564,7 +564,7 @@ func runC09(c *Ctx) {
 	if c.Thorough() {
 		nReq = 40000
 	}
-	c.R.Rule = fmt.Sprintf("%d requests per backend instance drawn from a grammar of the routed surface (methods incl. unknown ones; service/bucket/object paths incl. hostile keys and names; sub-resources uploads, uploadId, partNumber, versioning, versions, versionId, delete, location, list-type, prefix, delimiter, marker, max-keys, continuation-token, start-after, key-marker, version-id-marker, upload-id-marker, max-uploads, max-parts, part-number-marker with absurd numeric and junk values; Range, copy-source, Content-MD5, streaming/decoded-length, conditional, force-delete and oversized metadata headers; empty, random, valid and malformed XML and multipart-form bodies; mismatching Content-Length), issued against stores in the states {empty, objects, versioned with a delete marker and a deleted current version, pending uploads with gaps} with the options {default, host-bucket, auto-bucket, no-versioning}; each answer must be a complete response (no panic, no hang) that is a success or an error whose body is empty or an S3 error document with a code whose table status (re-read from error.go, evaluated by the Lean driver) equals the response status; one request in three comes from a mostly-valid stream (a well-formed operation on the prepared keys, version and pending upload with at most one deviation: rejected and accepted Complete variants, part uploads, aborts, ranged reads, copies, listings); every request is followed by a canary (a part upload and ListParts on the pending upload, every fourth time a whole initiate/part/rejected-complete/complete/GET/DELETE cycle, then PUT/GET/LIST/DELETE on the same and on another bucket); at the end of every instance the store is drained through legitimate requests (every version deleted by id, every key deleted, the pending upload aborted) and listed and read once more; fs backends additionally over a storage whose read-side calls start failing in the middle of a request (18 request kinds × failure after 0..7 calls): still a well-formed answer, no panic, and normal service once the storage answers again; declared lengths are capped at 1 MiB (resource exhaustion is outside the property); non-trivial = distinct request answered with an error", nReq)
+	c.R.Rule = fmt.Sprintf("%d requests per backend instance drawn from a grammar of the routed surface (methods incl. unknown ones; service/bucket/object paths incl. hostile keys and names; sub-resources uploads, uploadId, partNumber, versioning, versions, versionId, delete, location, list-type, prefix, delimiter, marker, max-keys, continuation-token, start-after, key-marker, version-id-marker, upload-id-marker, max-uploads, max-parts, part-number-marker with absurd numeric and junk values; Range, copy-source, Content-MD5, streaming/decoded-length, conditional, force-delete and oversized metadata headers; empty, random, valid and malformed XML and multipart-form bodies; mismatching Content-Length), issued against stores in the states {empty, objects, versioned with a delete marker and a deleted current version, pending uploads with gaps} with the options {default, host-bucket, auto-bucket, no-versioning}; each answer must be a complete response (no panic, no hang) that is a success or an error whose body is empty or an S3 error document with a code whose table status (re-read from error.go, evaluated by the Lean driver) equals the response status; before them a deterministic sweep of every listing (V1 marker, V2 start-after / continuation token / both, versions key-marker with version-id-marker, uploads key-marker with upload-id-marker) with markers before all keys, on keys, between keys, beyond the last key and absurd, with and without prefix, delimiter and page sizes; one request in three comes from a mostly-valid stream (a well-formed operation on the prepared keys, version and pending upload with at most one deviation: rejected and accepted Complete variants, part uploads, aborts, ranged reads, copies, listings); every request is followed by a canary (a part upload and ListParts on the pending upload, every fourth time a whole initiate/part/rejected-complete/complete/GET/DELETE cycle, then PUT/GET/LIST/DELETE on the same and on another bucket); at the end of every instance the store is drained through legitimate requests (every version deleted by id, every key deleted, the pending upload aborted) and listed and read once more; fs backends additionally over a storage whose read-side calls start failing in the middle of a request (18 request kinds × failure after 0..7 calls): still a well-formed answer, no panic, and normal service once the storage answers again; declared lengths are capped at 1 MiB (resource exhaustion is outside the property); non-trivial = distinct request answered with an error", nReq)
 	type optSet struct {
 		name string
 		opts []gofakes3.Option
@@ -599,6 +599,9 @@ func runC09(c *Ctx) {
 					}
 					canaryInst = &impl.Instance{Kind: kind, Backend: inst.Backend, G: gofakes3.New(inst.Backend, gofakes3.WithTimeSkewLimit(0))}
 					canaryInst.H = canaryInst.G.Server()
+				}
+				if !hostMode {
+					c09MarkerSweep(c, kind, inst, st, os.name, class)
 				}
 				var history []string
 				for i := 0; i < per; i++ {
@@ -651,6 +654,76 @@ func runC09(c *Ctx) {
 		c09IOFaults(c, kind)
 	}
 	_ = io.EOF
+}
+
+// c09MarkerSweep: every listing of the prepared store with every kind of marker placed before all
+// keys, on a key, between keys, beyond the last key, and absurd — with and without prefix,
+// delimiter and page size.  Deterministic (the grammar draws such requests only by chance).
+func c09MarkerSweep(c *Ctx, kind string, inst *impl.Instance, st c09State, opt, class string) bool {
+	b := st.bucket
+	markers := []string{"", "!", "dir/", "dir/k2", "dir/k2x", "k1", "k2", "mp/obj", "zzzz", "~~~~", "\x00", "\xff\xff"}
+	tok := func(m string) string { return base64.URLEncoding.EncodeToString([]byte(m)) }
+	bad := false
+	do := func(desc, query string) {
+		if bad {
+			return
+		}
+		rq := impl.Req{Method: "GET", Path: "/" + b, Query: query}
+		resp := inst.Do(rq)
+		c.R.Evaluations++
+		if ok, why := c09Wellformed(c, "GET", resp); !ok {
+			fp := "c09:malformed-answer"
+			if strings.HasPrefix(why, "panic") {
+				fp = "c09:panic"
+			} else if why == "hang" {
+				fp = "c09:hang"
+			}
+			c.mismatch(Mismatch{Kind: "spec", Backend: kind, Case: []string{"options=" + opt + " state=" + class, "GET /" + b + "?" + query + "   (" + desc + ")"}, Impl: why,
+				Spec: "a complete, well-formed answer", Finger: fp + ":marker-sweep"})
+			bad = true
+		}
+	}
+	for _, m := range markers {
+		me := url.QueryEscape(m)
+		for _, extra := range []string{"", "&max-keys=1", "&max-keys=2&delimiter=%2F", "&prefix=dir%2F", "&prefix=dir%2F&delimiter=%2F&max-keys=1"} {
+			do("V1 marker", "marker="+me+extra)
+			do("V2 start-after", "list-type=2&start-after="+me+extra)
+			do("V2 continuation-token", "list-type=2&continuation-token="+url.QueryEscape(tok(m))+extra)
+			do("V2 token and start-after", "list-type=2&continuation-token="+url.QueryEscape(tok(m))+"&start-after=k1"+extra)
+		}
+		for _, extra := range []string{"", "&max-keys=1", "&prefix=dir%2F&delimiter=%2F", "&version-id-marker=null", "&version-id-marker=junk&max-keys=1"} {
+			do("versions key-marker", "versions&key-marker="+me+extra)
+		}
+		for _, extra := range []string{"", "&max-uploads=1", "&max-uploads=2&delimiter=%2F", "&upload-id-marker=1", "&upload-id-marker=999&max-uploads=1", "&prefix=mp%2F&max-uploads=1"} {
+			do("uploads key-marker", "uploads&key-marker="+me+extra)
+		}
+	}
+	if class == "uploads" && !bad {
+		// an upload on the LAST key that is gone again (aborted), one on a middle key that was
+		// completed: the index must not keep anything of them that a paged listing trips over
+		for _, k := range []string{"zz-last", "n-middle"} {
+			resp := inst.Do(impl.Req{Method: "POST", Path: "/" + b + "/" + k, Query: "uploads"})
+			var d xmlInitiate
+			xml.Unmarshal(resp.Body, &d)
+			if d.UploadID == "" {
+				continue
+			}
+			if k == "zz-last" {
+				inst.Do(impl.Req{Method: "DELETE", Path: "/" + b + "/" + k, Query: "uploadId=" + d.UploadID})
+			} else {
+				inst.Do(impl.Req{Method: "PUT", Path: "/" + b + "/" + k, Query: "uploadId=" + d.UploadID + "&partNumber=1", Body: bytes.NewReader([]byte("p"))})
+				body := "<CompleteMultipartUpload><Part><PartNumber>1</PartNumber><ETag>\"" + etagOf([]byte("p")) + "\"</ETag></Part></CompleteMultipartUpload>"
+				inst.Do(impl.Req{Method: "POST", Path: "/" + b + "/" + k, Query: "uploadId=" + d.UploadID, Body: bytes.NewReader([]byte(body))})
+			}
+		}
+		for n := 1; n <= 4; n++ {
+			for _, km := range []string{"", "mp/obj", "n-middle", "other", "zz-last"} {
+				do("uploads after an abort and a complete", fmt.Sprintf("uploads&max-uploads=%d&key-marker=%s", n, url.QueryEscape(km)))
+				do("uploads after an abort and a complete", fmt.Sprintf("uploads&max-uploads=%d&delimiter=%%2F&key-marker=%s", n, url.QueryEscape(km)))
+			}
+		}
+	}
+	return !bad
 }
 
 // c09IOFaults: the storage below an fs backend stops answering in the middle of a request (the
